@@ -3,10 +3,10 @@ package scen
 import (
 	"bytes"
 	"crypto/tls"
-	"time"
 	"errors"
 	"fmt"
 	"io"
+	"time"
 
 	"github.com/tjfoc/gmsm/gmtls"
 	"github.com/tjfoc/gmsm/verifsim/pki"
@@ -82,10 +82,10 @@ type benignParams struct {
 	CliCertSrc   int // 0 static 1 GetClientCertificate
 	Tickets      bool
 	DynOff       bool
-	SrvKey       int // TLS: 0 rsa 1 ecdsa
-	CallbackErr  int // 0 none 1 server cert callback fails 2 client cert callback fails
-	CVerify      int // 0 correct 1 wrong server name 2 wrong roots 3 InsecureSkipVerify
-	SrvChain     int // GM: 0 direct leaf, 1 via intermediate
+	SrvKey       int  // TLS: 0 rsa 1 ecdsa
+	CallbackErr  int  // 0 none 1 server cert callback fails 2 client cert callback fails
+	CVerify      int  // 0 correct 1 wrong server name 2 wrong roots 3 InsecureSkipVerify
+	SrvChain     int  // GM: 0 direct leaf, 1 via intermediate
 	SrvMissing   bool // GMSSL server configured with the signing certificate only
 }
 
